@@ -14,6 +14,7 @@ from .c01 import C01
 class C04(C01):
     pid = "C04"
     props_module = "CBV.Props.C04"
+    compare_level = "full"
     modes = [("well", 0.6), ("double", 0.25), ("sandwich", 0.1), ("conflict", 0.05)]
     rule = (
         C01.rule
